@@ -19,13 +19,13 @@ func TestVerifC19SoundnessSumVec(t *testing.T) {
 		"invalid:honest-prover:sumvec:non-bit", "invalid:honest-prover:sumvec:non-bit-value-preserving",
 		"invalid:honest-prover:sumvec:all-twos", "invalid:honest-prover:sumvec:random-vector")
 	type pr struct{ length, bits, chunk uint }
-	params := []pr{{1, 1, 1}, {4, 4, 3}, {3, 16, 7}, {10, 8, 9}, {2, 64, 11}, {1, 64, 1}, {8, 1, 3}, {5, 3, 100}, {6, 2, 12}, {7, 3, 1}, {3, 5, 15}, {3, 5, 16}, {3, 5, 14}}
-	shares := []uint8{2, 3, 5}
+	params := []pr{{1, 1, 1}, {4, 4, 3}, {3, 16, 7}, {10, 8, 9}, {2, 64, 11}, {1, 64, 1}, {8, 1, 3}, {5, 3, 100}, {6, 2, 12}, {7, 3, 1}, {3, 5, 15}, {3, 5, 16}, {3, 5, 14}, {33, 2, 1}}
+	shares := []uint8{2, 3, 5, 9}
 	if lib.Thorough() {
 		params = append(params, pr{100, 1, 10}, pr{17, 5, 4}, pr{4, 64, 256}, pr{33, 3, 1}, pr{64, 2, 11})
 		shares = append(shares, 4, 16, 255)
 	}
-	reps := lib.Scale(2, 6)
+	reps := lib.Scale(6, 12)
 	type cs struct {
 		p pr
 		n uint8
@@ -34,7 +34,13 @@ func TestVerifC19SoundnessSumVec(t *testing.T) {
 	var cases []cs
 	for _, p := range params {
 		for _, n := range shares {
-			for k := 0; k < reps; k++ {
+			rp := reps
+			if n > 16 {
+				rp = 1 // cost grows linearly with the number of aggregators
+			} else if n > 5 {
+				rp = lib.Scale(1, 2)
+			}
+			for k := 0; k < rp; k++ {
 				cases = append(cases, cs{p, n, k})
 			}
 		}
